@@ -127,6 +127,12 @@ def reachable_calls(program, roots, follow=lambda fn: True):
         for c in b.crate.bodies:
             if c.is_closure and c.parent == b.key and c.key not in seen:
                 work.append(c)
+        # items referenced without being called directly: fn items passed as values (thread_local! init
+        # functions, callbacks), named constants / statics with initialiser bodies, promoted constants, and
+        # items nested inside b (anonymous constants and their closures)
+        for c in _referenced_bodies(b):
+            if c.key not in seen:
+                work.append(c)
         for bb, t in b.calls():
             fn = t["fn"]
             if "indirect" in fn:
@@ -152,3 +158,39 @@ def reachable_calls(program, roots, follow=lambda fn: True):
             else:
                 work.append(tgt)
     return seen, ext
+
+
+_ref_cache = {}
+
+
+def _referenced_bodies(b):
+    """bodies of the same crate whose path occurs in an operand / type / promoted text of b, or that are
+    lexically nested in b (over-approximation: a mention is treated as a possible use)"""
+    r = _ref_cache.get(id(b))
+    if r is not None and r[0] is b:
+        return r[1]
+    import json as _json
+    import re as _re
+
+    txt = _json.dumps([b.blocks, b.j.get("promoted")])
+    out = []
+    for c in b.crate.bodies:
+        if c is b:
+            continue
+        if c.path.startswith(b.path + "::") and not c.is_closure:
+            out.append(c)
+            continue
+        if c.is_closure:
+            continue
+        p = c.path
+        i = txt.find(p)
+        while i >= 0:
+            j = i + len(p)
+            before = txt[i - 1] if i > 0 else " "
+            after = txt[j] if j < len(txt) else " "
+            if not (before.isalnum() or before in "_:") and not (after.isalnum() or after == "_" or txt[j:j + 2] == "::"):
+                out.append(c)
+                break
+            i = txt.find(p, j)
+    _ref_cache[id(b)] = (b, out)
+    return out
